@@ -33,7 +33,7 @@ type F struct {
 }
 
 type HOp struct {
-	Op    string `json:"op"` // sync compact snapshot cascade l0ret probe racesnap (Arg = ms between starting Sync and calling Snapshot) racecommit (Arg 0 = commit from the sync hook, >0 = free-running committer)
+	Op    string `json:"op"` // sync compact snapshot cascade l0ret probe racesnap (Arg = ms between starting Sync and calling Snapshot) racecommit (Arg 0 = commit from the sync hook, >0 = free-running committer) commit (Arg rows of Size bytes, not synced) checkpoint (Arg 0 passive 1 full 2 restart 3 truncate) restart (Close + new DB object)
 	Arg   int    `json:"arg,omitempty"`
 	Sleep int    `json:"sleep,omitempty"` // ms slept before the op
 	Size  int    `json:"size,omitempty"`  // racesnap: KB of the row whose sync the snapshot races with
@@ -44,6 +44,7 @@ type HCase struct {
 	LV        int    `json:"lv"`
 	Retention bool   `json:"retention"`
 	ProbeSeed uint64 `json:"probe_seed"`
+	PageSize  int    `json:"page_size,omitempty"`
 }
 
 var quiet = slog.New(slog.NewTextHandler(io.Discard, &slog.HandlerOptions{Level: slog.LevelError + 10}))
@@ -157,6 +158,9 @@ type hist struct {
 	hotChecked map[int]bool
 	hook       *hookHandler
 	nRestore   int
+	h          HCase
+	fp         map[int]string // txid -> fingerprint of the quiescent source right after the sync that reached it
+	extraT     map[int]bool   // additional prioritised probe instants (around snapshots taken over unsynced commits)
 }
 
 func openHist(tmp string, h HCase) (*hist, error) {
@@ -164,35 +168,45 @@ func openHist(tmp string, h HCase) (*hist, error) {
 	if err != nil {
 		return nil, err
 	}
-	x := &hist{dir: dir, base: time.Now().UnixMilli() - 1000, t: map[int]int{}, seen: map[[3]int]bool{}, rowLo: map[int]int{}, hot: map[int]bool{}, cs: map[int]int{}, hotRows: map[int]bool{}, hotChecked: map[int]bool{}, hook: &hookHandler{}}
+	x := &hist{dir: dir, base: time.Now().UnixMilli() - 1000, t: map[int]int{}, seen: map[[3]int]bool{}, rowLo: map[int]int{}, hot: map[int]bool{}, cs: map[int]int{}, hotRows: map[int]bool{}, hotChecked: map[int]bool{}, hook: &hookHandler{}, h: h, fp: map[int]string{}, extraT: map[int]bool{}}
 	path := filepath.Join(dir, "db")
 	x.sqldb, err = sql.Open("sqlite", path)
 	if err != nil {
 		return nil, err
 	}
 	x.sqldb.SetMaxOpenConns(1)
-	for _, q := range []string{"PRAGMA journal_mode=wal", "PRAGMA wal_autocheckpoint=0", "PRAGMA busy_timeout=10000", "CREATE TABLE t(id INTEGER PRIMARY KEY, v BLOB)"} {
+	qs := []string{"PRAGMA journal_mode=wal", "PRAGMA wal_autocheckpoint=0", "PRAGMA busy_timeout=10000", "CREATE TABLE t(id INTEGER PRIMARY KEY, v BLOB)"}
+	if h.PageSize > 0 {
+		qs = append([]string{fmt.Sprintf("PRAGMA page_size=%d", h.PageSize)}, qs...)
+	}
+	for _, q := range qs {
 		if _, err := x.sqldb.Exec(q); err != nil {
 			return nil, err
 		}
 	}
-	x.db = litestream.NewDB(path)
-	x.db.MonitorInterval = 0
 	x.fc = file.NewReplicaClient(filepath.Join(dir, "replica"))
+	if err := x.attach(); err != nil {
+		return nil, err
+	}
+	return x, nil
+}
+
+// attach creates a fresh litestream DB object (and Store) over the same database, meta
+// directory and replica - what a daemon start does.
+func (x *hist) attach() error {
+	x.db = litestream.NewDB(filepath.Join(x.dir, "db"))
+	x.db.MonitorInterval = 0
 	x.db.Replica = litestream.NewReplicaWithClient(x.db, x.fc)
 	x.db.Replica.MonitorEnabled = false
-	x.store = litestream.NewStore([]*litestream.DB{x.db}, levelsN(h.LV))
+	x.store = litestream.NewStore([]*litestream.DB{x.db}, levelsN(x.h.LV))
 	x.store.Logger = quiet
 	x.db.SetLogger(slog.New(x.hook))
 	x.store.SnapshotRetention = time.Millisecond
 	x.db.L0Retention = 0
-	if h.Retention {
+	if x.h.Retention {
 		x.db.L0Retention = time.Millisecond
 	}
-	if err := x.db.Open(); err != nil {
-		return nil, err
-	}
-	return x, nil
+	return x.db.Open()
 }
 
 func (x *hist) close() {
@@ -294,16 +308,32 @@ func (x *hist) structural(fs []F, step int) string {
 
 // maxRow opens a restored database image and returns the highest app row id in it (0 = none).
 func (x *hist) maxRow(img []byte) (int, error) {
+	m, _, err := x.content(img)
+	return m, err
+}
+
+const fpQuery = "SELECT count(*), coalesce(max(id),0), coalesce(sum(length(v)),0), coalesce(sum(id*(1+length(v)%97)),0) FROM t"
+
+func fingerprint(d *sql.DB) (int, string, error) {
+	var n, m, l, c int64
+	if err := d.QueryRow(fpQuery).Scan(&n, &m, &l, &c); err != nil {
+		return 0, "", err
+	}
+	return int(m), fmt.Sprintf("rows=%d max=%d bytes=%d mix=%d", n, m, l, c), nil
+}
+
+// content opens a restored database image: highest app row id and a fingerprint of table t.
+func (x *hist) content(img []byte) (int, string, error) {
 	p := filepath.Join(x.dir, "content.db")
 	for _, sfx := range []string{"", "-wal", "-shm"} {
 		os.Remove(p + sfx)
 	}
 	if err := os.WriteFile(p, img, 0o644); err != nil {
-		return 0, err
+		return 0, "", err
 	}
 	d, err := sql.Open("sqlite", p)
 	if err != nil {
-		return 0, err
+		return 0, "", err
 	}
 	defer func() {
 		d.Close()
@@ -311,11 +341,7 @@ func (x *hist) maxRow(img []byte) (int, error) {
 			os.Remove(p + sfx)
 		}
 	}()
-	var m sql.NullInt64
-	if err := d.QueryRow("SELECT max(id) FROM t").Scan(&m); err != nil {
-		return 0, err
-	}
-	return int(m.Int64), nil
+	return fingerprint(d)
 }
 
 func canonPlan(infos []*ltx.FileInfo, err error) (string, int) {
@@ -471,6 +497,9 @@ func (x *hist) probe(drv *hx.Driver, res *hx.Result, rnd *hx.Rand, step int) (ki
 			hotTs[x.cs[id]] = true
 		}
 	}
+	for T := range x.extraT {
+		hotTs[T] = true
+	}
 	for T := range hotTs {
 		cand[T] = true
 	}
@@ -482,7 +511,7 @@ func (x *hist) probe(drv *hx.Driver, res *hx.Result, rnd *hx.Rand, step int) (ki
 	}
 	sort.Ints(Ts)
 	prevE, prevT := 0, 0
-	restoreBudget, hotBudget, failBudget := 5, 16, 2
+	restoreBudget, hotBudget, failBudget := 5, 16+len(x.extraT), 2
 	for _, T := range Ts {
 		ts := time.UnixMilli(x.base + int64(T)).In(zones[T%len(zones)])
 		infos, perr := litestream.CalcRestorePlan(ctx, x.fc, 0, ts, quiet)
@@ -546,7 +575,14 @@ func (x *hist) probe(drv *hx.Driver, res *hx.Result, rnd *hx.Rand, step int) (ki
 			}
 			// content oracle: the newest app row in the restored database must not belong to a
 			// transaction whose L0 file is stamped at or after T
-			if m, merr := x.maxRow(got); merr != nil {
+			m, gotFP, merr := x.content(got)
+			if want, ok := x.fp[e]; ok && merr == nil {
+				count("restore-vs-source-checked")
+				if gotFP != want {
+					return "violation", "C15/not-source-state", fmt.Sprintf("step %d: Restore(Timestamp=%d, zone %s) selects %s, i.e. the state of TXID %d, but its content (%s) is not what the source database held when TXID %d was replicated (%s); listing %s", step, T, zname, impl, e, gotFP, e, want, listing)
+				}
+			}
+			if merr != nil {
 				return "violation", "C15/restore-unreadable", fmt.Sprintf("step %d: Restore(Timestamp=%d) output cannot be queried: %v", step, T, merr)
 			} else if lo, ok := x.rowLo[m]; ok {
 				count("restore-content-checked")
@@ -632,6 +668,7 @@ func runHistory(tmp string, drv *hx.Driver, h HCase, res *hx.Result) (kind, sig,
 			hx.Fatal(err)
 		}
 	}
+	pending, snapOverPending := 0, false
 	notePos := func() {
 		if pos, err := x.db.Pos(); err == nil {
 			x.lastPos = int(pos.TXID)
@@ -643,8 +680,13 @@ func runHistory(tmp string, drv *hx.Driver, h HCase, res *hx.Result) (kind, sig,
 		}
 		switch op.Op {
 		case "sync":
+			p0 := x.lastPos
 			for j := 0; j < op.Arg; j++ {
-				insert(100 + x.rows%5*400)
+				if op.Size > 0 {
+					insert(op.Size)
+				} else {
+					insert(100 + x.rows%5*400)
+				}
 			}
 			if err := x.db.Sync(ctx); err != nil {
 				return "", "", ""
@@ -653,7 +695,59 @@ func runHistory(tmp string, drv *hx.Driver, h HCase, res *hx.Result) (kind, sig,
 				return "", "", ""
 			}
 			notePos()
+			pending = 0
+			// the source is quiescent and fully replicated: remember what TXID lastPos looks like
+			if _, f, err := fingerprint(x.sqldb); err == nil {
+				if old, ok := x.fp[x.lastPos]; !ok || old == f {
+					x.fp[x.lastPos] = f
+				}
+			}
 			count("op-sync")
+			if snapOverPending {
+				// a snapshot was taken while commits were not yet replicated: probe just after the
+				// snapshot's stamp, midway, and exactly at the replication time of the TXID that
+				// carries those commits
+				snapOverPending = false
+				x.record(res, i)
+				if fs, err := x.listing(); err == nil {
+					S := 0
+					for _, f := range fs {
+						if f.L == litestream.SnapshotLevel && f.Cr > S {
+							S = f.Cr
+						}
+					}
+					if tn, ok := x.t[p0+1]; ok && S > 0 && x.lastPos > p0 {
+						x.extraT[S+1], x.extraT[(S+tn)/2], x.extraT[tn] = true, true, true
+						x.hot[p0+1] = true
+						count("snapshot-over-unsynced-commit")
+					}
+				}
+				if k, sg, w := x.probe(drv, res, rnd, i); k != "" {
+					return k, sg, w
+				}
+			}
+		case "commit":
+			for j := 0; j < op.Arg; j++ {
+				insert(op.Size)
+			}
+			pending += op.Arg
+			count("op-commit-unsynced")
+		case "checkpoint":
+			mode := []string{litestream.CheckpointModePassive, litestream.CheckpointModeFull, litestream.CheckpointModeRestart, litestream.CheckpointModeTruncate}[op.Arg%4]
+			if err := x.db.Checkpoint(ctx, mode); err == nil {
+				count("op-checkpoint-" + strings.ToLower(mode))
+			} else {
+				count("op-checkpoint-error")
+			}
+			notePos()
+		case "restart":
+			cctx, cancel := context.WithTimeout(ctx, 10*time.Second)
+			_ = x.db.Close(cctx)
+			cancel()
+			if err := x.attach(); err != nil {
+				hx.Fatal(err)
+			}
+			count("op-restart")
 		case "racesnap":
 			// DB.Snapshot() called while a DB.Sync producing a new TXID holds / queues for the executor
 			p0 := x.lastPos
@@ -680,6 +774,7 @@ func runHistory(tmp string, drv *hx.Driver, h HCase, res *hx.Result) (kind, sig,
 				return "", "", ""
 			}
 			notePos()
+			pending = 0
 			for n := p0 + 1; n <= x.lastPos; n++ {
 				x.hot[n] = true
 			}
@@ -748,6 +843,7 @@ func runHistory(tmp string, drv *hx.Driver, h HCase, res *hx.Result) (kind, sig,
 				return "", "", ""
 			}
 			notePos()
+			pending = 0
 			for n := p0 + 1; n <= x.lastPos; n++ {
 				x.hot[n] = true
 			}
@@ -765,6 +861,9 @@ func runHistory(tmp string, drv *hx.Driver, h HCase, res *hx.Result) (kind, sig,
 		case "snapshot":
 			if _, err := x.db.Snapshot(ctx); err == nil {
 				count("op-snapshot")
+				if pending > 0 {
+					snapOverPending = true
+				}
 			}
 		case "cascade":
 			if err := x.store.EnforceSnapshotRetention(ctx, x.db); err == nil {
@@ -815,6 +914,42 @@ func genRace(rnd *hx.Rand, n int) HCase {
 		case 1:
 			h.Ops = append(h.Ops, HOp{Op: "compact", Arg: 1, Sleep: 2})
 		}
+	}
+	h.Ops = append(h.Ops, HOp{Op: "probe"})
+	return h
+}
+
+// genRestart: daemon restart over a WAL with (or without) a stale tail, idle first syncs, a commit
+// that is not yet replicated, a snapshot, then the sync that replicates the commit.
+func genRestart(rnd *hx.Rand) HCase {
+	h := HCase{LV: 1 + rnd.Intn(2), ProbeSeed: rnd.Uint64(), PageSize: []int{0, 0, 1024, 8192, 16384}[rnd.Intn(5)]}
+	h.Ops = append(h.Ops, HOp{Op: "sync", Arg: 1, Sleep: 2})
+	fill := 3 + rnd.Intn(4)
+	for i := 0; i < fill; i++ { // grow the WAL
+		h.Ops = append(h.Ops, HOp{Op: "sync", Arg: 1, Size: 8000 + rnd.Intn(50000), Sleep: 1})
+	}
+	if rnd.Chance(80) { // checkpoint: PASSIVE/FULL/RESTART leave the -wal file at its length, TRUNCATE does not
+		h.Ops = append(h.Ops, HOp{Op: "checkpoint", Arg: []int{0, 0, 1, 2, 3}[rnd.Intn(5)]})
+	}
+	h.Ops = append(h.Ops, HOp{Op: "sync", Arg: 1, Size: 50 + rnd.Intn(500), Sleep: 2}) // restarts the WAL at frame 0
+	if rnd.Chance(85) {
+		h.Ops = append(h.Ops, HOp{Op: "restart"})
+	}
+	for i, n := 0, rnd.Intn(3); i < n; i++ {
+		h.Ops = append(h.Ops, HOp{Op: "sync", Arg: 0, Sleep: 1}) // idle
+	}
+	small := HOp{Op: "commit", Arg: 1 + rnd.Intn(2), Size: 40 + rnd.Intn(1500), Sleep: 3}
+	after := rnd.Chance(25)
+	if !after {
+		h.Ops = append(h.Ops, small)
+	}
+	h.Ops = append(h.Ops, HOp{Op: "snapshot", Sleep: 3})
+	if after || rnd.Chance(30) {
+		h.Ops = append(h.Ops, small)
+	}
+	h.Ops = append(h.Ops, HOp{Op: "sync", Arg: 0, Sleep: 4 + rnd.Intn(4)})
+	if rnd.Chance(40) {
+		h.Ops = append(h.Ops, HOp{Op: "compact", Arg: 1, Sleep: 2}, HOp{Op: "sync", Arg: 1, Sleep: 2})
 	}
 	h.Ops = append(h.Ops, HOp{Op: "probe"})
 	return h
@@ -882,9 +1017,9 @@ func main() {
 
 	res := hx.NewResult(o, "c15")
 	res.Rule = "one case = one (real listing, timestamp T) probe of CalcRestorePlan; counts as non-trivial when a plan is returned (distinct by listing and T)"
-	nHist, hLen, nRace, rLen := 22, 28, 8, 4
+	nHist, hLen, nRace, rLen, nRestart := 20, 28, 8, 4, 14
 	if o.Tier == "thorough" {
-		nHist, hLen, nRace, rLen = 300, 45, 40, 6
+		nHist, hLen, nRace, rLen, nRestart = 300, 45, 40, 6, 120
 	}
 	nViol, nDis := 0, 0
 	report := func(kind, sig, what string, h HCase) {
@@ -921,11 +1056,15 @@ func main() {
 	}
 	rnd := hx.NewRand(o.Seed)
 	rr := rnd.Fork()
-	for i := 0; i < nHist+nRace && nViol < 3; i++ {
+	rs := rnd.Fork()
+	for i := 0; i < nHist+nRace+nRestart && nViol < 3; i++ {
 		var h HCase
 		if i < nRace {
 			h = genRace(rr, rLen)
 			res.Count("history-race")
+		} else if i < nRace+nRestart {
+			h = genRestart(rs)
+			res.Count("history-restart")
 		} else {
 			h = genHistory(rnd, hLen)
 		}
@@ -955,7 +1094,7 @@ func main() {
 		}
 		report(k, s, what, h)
 	}
-	res.Notes = append(res.Notes, "real SQLite+DB+Store histories (sync/compact/snapshot, with and without retention at 1 ms thresholds); ledger = header timestamp of each L0 file; race stream: DB.Snapshot() called 0-3 ms after a DB.Sync of a 1-3 MB commit was started in another goroutine; racecommit: application commits while DB.Sync scans a 2-4 MB unsynced WAL (from DB.sync's own debug record, or free-running), commit instants recorded per row; every T is handed to Replica.Restore / CalcRestorePlan as the same instant expressed in +02:00, -04:00, UTC, +05:45 and a non-UTC process-local zone; structural oracles (file stamped >= every contained TXID's L0 stamp, L0 stamp >= commit instant of its rows); content oracle (newest app row of Restore(Timestamp=T) belongs to a TXID stamped < T); probes at t-1,t,t+1 and midpoints of every recorded header time and mtime")
+	res.Notes = append(res.Notes, "real SQLite+DB+Store histories (sync/compact/snapshot, with and without retention at 1 ms thresholds); ledger = header timestamp of each L0 file; race stream: DB.Snapshot() called 0-3 ms after a DB.Sync of a 1-3 MB commit was started in another goroutine; racecommit: application commits while DB.Sync scans a 2-4 MB unsynced WAL (from DB.sync's own debug record, or free-running), commit instants recorded per row; restart stream: WAL grown and checkpointed (PASSIVE/FULL/RESTART/TRUNCATE/none) so that the -wal file may keep a stale tail, DB closed and re-created, 0-2 idle syncs, an unsynced commit, DB.Snapshot, then the sync - probed just after the snapshot's stamp, midway and at the next TXID's replication time, page sizes 1k-16k; Restore(Timestamp=T) must equal the source as it was when the plan's last TXID was replicated (fingerprint of the quiescent source after each sync); every T is handed to Replica.Restore / CalcRestorePlan as the same instant expressed in +02:00, -04:00, UTC, +05:45 and a non-UTC process-local zone; structural oracles (file stamped >= every contained TXID's L0 stamp, L0 stamp >= commit instant of its rows); content oracle (newest app row of Restore(Timestamp=T) belongs to a TXID stamped < T); probes at t-1,t,t+1 and midpoints of every recorded header time and mtime")
 	if err := res.Write(o.Out); err != nil {
 		hx.Fatal(err)
 	}
